@@ -215,7 +215,7 @@ class Replay:
             self.stack.pop()
 
 
-def parse_with_replay(P, fname, tree, args_for, out_base):
+def parse_with_replay(P, fname, tree, args_for, out_base, str_len=None):
     fn = P.fn(fname, PT)
     do = sem.field_offsets(P, "thrift_decoder")
     rp = Replay(tree)
@@ -287,7 +287,7 @@ def parse_with_replay(P, fname, tree, args_for, out_base):
             ev.append(("desync", "binary", v and v["k"]))
             return U
         p = v["v"][0]
-        n = v["v"][1] if v["k"] == "bin" else BINLEN
+        n = v["v"][1] if v["k"] == "bin" else (BINLEN if str_len is None else str_len)
         if len(a) > 1:
             sem.set_out(it, a[1], n)
         return Ptr(p[0], p[1], 1) if isinstance(p, tuple) else p
@@ -519,7 +519,7 @@ def settle_extraction(ctx, decided, logical_ok=False):
     return n
 
 
-def check(ctx, rule="R5.roundtrip", roundtrip=True):
+def check(ctx, rule="R5.roundtrip", roundtrip=True, only=None):
     """Serialise-then-parse of FileMetaData and of the three page headers on an abstract, fully populated object."""
     P = ctx.P
     n = 0
@@ -529,6 +529,8 @@ def check(ctx, rule="R5.roundtrip", roundtrip=True):
         if tag in pt:
             cases.append((nm, "parquet_write_page_header", "parquet_parse_page_header", "parquet_page_header", pt[tag]))
     for sname, wname, pname, rname, page_type in cases:
+        if only is not None and sname not in only:
+            continue
         key = "roundtrip|%s:%s|%s" % (PT, wname, sname)
         what = ("every member of %s that %s serialises comes back in the same member from %s (abstract object: unique marker per member, "
                 "all presence flags set, lists of two; encoder and decoder primitives hooked)" % (sname, wname, pname))
@@ -608,4 +610,27 @@ def check(ctx, rule="R5.roundtrip", roundtrip=True):
             ctx.bad(rule, key + "|" + recn, P.where(wfn.body), "the members of %s written by %s come back in the same members" % (recn, wname),
                     "; ".join("%s (%s): %s" % (k, v[0], v[1]) for k, v in items[:8]))
         ctx.ob(rule, key, P.where(wfn.body), what, True, "%d serialised members compared, %d lost (reported separately)" % (nser, len(lost)))
+        # the same footer with every string empty: a zero-length name / key / created_by is a value like any other and
+        # comes back as a string (not as "absent")
+        if rname == "parquet_file_metadata":
+            key0 = key + "|empty-strings"
+            what0 = "with every string member empty (length 0 on the wire) %s still fills the string members %s wrote" % (pname, wname)
+            try:
+                ret3, ev3, heap3, copies3, rp3 = parse_with_replay(P, pname, tree, args_for, "out", str_len=0)
+                out3 = []
+                compare(g, g.heap, rname, "obj", 0, heap3, "out", 0, copies3, out3, sname)
+                str_blocks = set(e[1][0] for e in ev if e[0] == "str" and isinstance(e[1], tuple))
+                gone = {}
+                for here, path, same, how, orig in out3:
+                    if here in lost or same:
+                        continue
+                    if isinstance(orig, Ptr) and orig.base in str_blocks:
+                        gone.setdefault(here, (path, how))
+                if ret3 != 0:
+                    ctx.ob(rule, key0, P.where(wfn.body), what0, False, "the parser returns %s" % (ret3,))
+                else:
+                    ctx.ob(rule, key0, P.where(wfn.body), what0, not gone,
+                           "; ".join("%s (%s): %s" % (k, v[0], v[1]) for k, v in sorted(gone.items())[:6]))
+            except (sem.Inconclusive, ValueError, KeyError, AssertionError, IndexError) as ex:
+                ctx.inconclusive(rule, key0, P.where(wfn.body), what0, "%s: %s" % (type(ex).__name__, ex))
     return n
